@@ -23,8 +23,8 @@ func TestTqvWitness(t *testing.T) {
 	s.delete(SessionID(7))
 	after := tqvGauge() - float64(len(s.known))
 	out := map[string]interface{}{
-		"obligation": "tacquito.sessions.delete/post#4",
-		"scenario":   "delete(7) on an empty table",
+		"obligation":             "tacquito.sessions.delete/post#4",
+		"scenario":               "delete(7) on an empty table",
 		"gauge_minus_len_before": before, "gauge_minus_len_after": after,
 		"violated": before != after,
 	}
